@@ -14,7 +14,7 @@ snap = c.snapshot(cfg) if hasattr(c, "snapshot") else None
 t0 = time.time()
 rr = verify_contract(c, label, cfg, REPO_SRC, snapshot_root=snap, ensure_filter=None)
 print("exec", round(time.time() - t0, 1), "s; obligations", len(rr.obligations), "axioms", len(rr.ctx.global_axioms))
-axioms = list(rr.ctx.global_axioms)
+axioms = list(rr.ctx.global_axioms) + (list(c.extra_axioms(rr.ctx)) if hasattr(c, "extra_axioms") else [])
 for ob in rr.obligations:
     if obsub in ob.name:
         print("==", ob.name, "hyps", len(ob.hyps))
